@@ -12,7 +12,7 @@ META = {
     "rule": ("case = file (3D regular in the three layout families, irregular, 2D; dims chosen so that padded > real on "
              "the axes) x public read method x argument tuple with exactly one component forced out of range, drawn from "
              "{-1, -n, -n-1, far negative, n, n+1, last padded index, padded size, far positive, empty range, reversed "
-             "range, coordinate between / outside axis values}; outcome must be IndexError (or the dimensionality error "
+             "range, coordinate between axis values / far outside / exactly one step before the first or after the last label, with labels up to 1e7 and the int32 end}; outcome must be IndexError (or the dimensionality error "
              "for a 2D/3D mismatch), or for a negative ordinal exactly the real item Python indexing denotes; anything "
              "else is classified returned-data or wrong-exception; non-trivial = offending component in the "
              "padded-but-not-real zone or a negative ordinal; distinct = (file kind, method, position of the bad "
@@ -76,7 +76,7 @@ def cases(draw, ctx, two_d=False):
     m = draw(st.sampled_from(METHODS_2D if two_d else METHODS_3D))
     return {"file": desc, "m": m, "axis": draw(st.integers(0, 2)), "ord": draw(st.sampled_from(BAD_ORD)),
             "rng": draw(st.sampled_from(BAD_RANGE)), "u": [draw(st.floats(0, 1, exclude_max=True)) for _ in range(4)],
-            "coord": draw(st.sampled_from(["between", "below", "above", "stop+1"]))}
+            "coord": draw(st.sampled_from(["between", "below", "above", "stop+1", "stop", "start-1"]))}
 
 
 def off_axis(ax, how):
@@ -91,6 +91,10 @@ def off_axis(ax, how):
         return lo - 2 * abs(inc) - 1
     if how == "above":
         return hi + 2 * abs(inc) + 1
+    if how == "stop":
+        return ax[-1] + inc   # the stop value itself: the first label that is not on the axis
+    if how == "start-1":
+        return ax[0] - inc
     return ax[-1] + 2 * inc   # one step past the stop value
 
 
